@@ -140,6 +140,10 @@ func NewUDPConn(o UDPOpts) (*client.Conn, *UDPSession) {
 		o.Mutate(&cfg)
 	}
 	opts := append([]client.Option(nil), o.ConnOpts...)
+	if cfg.CreateInactivityMonitor != nil {
+		// as udp.Client / the servers do: the monitor comes from the configured factory (options.WithKeepAlive …)
+		opts = append(opts, client.WithInactivityMonitor(cfg.CreateInactivityMonitor()))
+	}
 	if o.Blockwise {
 		to := o.BlockwiseTimeout
 		if to == 0 {
